@@ -408,9 +408,17 @@ def handle (j : Json) : Except String Json := do
     let e ← exprOfJson (← j.getObjVal? "expr")
     let env ← (← j.getObjVal? "env").getArr?
     let env ← env.toList.mapM (·.getInt?)
-    match e.eval (fun i => env.getD i 0) with
-    | none => pure (Json.mkObj [("undefined", Json.bool true)])
-    | some v => pure (Json.mkObj [("value", ji v)])
+    let ρ := fun i => env.getD i 0
+    -- with "lo"/"hi": also the value computed in that fixed-width type and whether the hypothesis of
+    -- fixed_width_evaluation_is_exact (everything in range) holds
+    let extra ← match j.getObjVal? "lo", j.getObjVal? "hi" with
+      | .ok lo, .ok hi => do
+        let r : Rng := ⟨← lo.getInt?, ← hi.getInt?⟩
+        pure [("in_range", Json.bool (e.inRange r ρ)), ("fixed_width", match e.evalW r ρ with | some v => ji v | none => Json.null)]
+      | _, _ => pure []
+    match e.eval ρ with
+    | none => pure (Json.mkObj ([("undefined", Json.bool true)] ++ extra))
+    | some v => pure (Json.mkObj ([("value", ji v)] ++ extra))
   | "paren" =>
     let tgt ← targetOfString (← (← j.getObjVal? "target").getStr?)
     let op ← binOpOfString (← (← j.getObjVal? "op").getStr?)
